@@ -5,6 +5,8 @@
 (*   op.grant  whether the limiter consulted grants                                           *)
 (*   op.err    whether the wrapped call (handler / invoker / stream operation) fails          *)
 (*   op.cls    what the custom response classifier answers ("success" | "ignore" | "dropped") *)
+(*   op.ctx    what becomes of the call's context meanwhile (live | cancelled | expired): the   *)
+(*             outcome is the classifier's whatever the context says                          *)
 (*   cfg.custom    custom response classifiers installed (else the defaults: error -> dropped)*)
 (*   cfg.customle  custom limit-exceeded classifier installed: it chooses the status code     *)
 (*                 op.lecode per call (from the request); the default answers                 *)
